@@ -1532,7 +1532,7 @@ class Tensor(object):
             else:
                 chunk = src.cores[i][..., key[i], :]
                 subtract_core[..., key[i], :] += chunk
-                sh = chunk.shape[1]
+                sh = chunk.shape[-2]  # Number of selected indices (TT core: Rl x I x Rr; CP core: I x R)
                 k = i
 
             subtract_cores.append(subtract_core)
@@ -1590,13 +1590,13 @@ class Tensor(object):
                     else:
                         add_core[key[0], ..., key[i + 1], :] += value.cores[i]
                 else:
-                    if chunk.shape[1] != value.shape[i]:
+                    if sh != value.shape[i]:
                         raise ValueError(
                             "{}-th dimension mismatch in tensor assignment: {} (lhs) != {} (rhs)".format(
-                                i, chunk.shape[1], value.shape[i]
+                                i, sh, value.shape[i]
                             )
                         )
-                    if src.cores[i].dim() == 3:
+                    if value.cores[i].dim() == 3:  # The added tensor has the value's format, mode by mode
                         add_core = torch.zeros(
                             value.cores[i].shape[0],
                             self.shape[i],
